@@ -149,7 +149,7 @@ class C10(Check):
         def npp(cases):
             for n, c in enumerate(cases):
                 if n % 7 == 3:
-                    c = dict(c, npparam=('int64', 'int32')[(n // 7) % 2])
+                    c = dict(c, npparam=('int64', 'int32', 'int8', 'uint8', 'int16')[(n // 7) % 5])
                 yield c
         return with_prelude(npp(self._generate(rng, tier, shard, nshards)), rng, size=lambda c: len(c['seq']))
 
